@@ -308,6 +308,7 @@ theorem Matches.bounds {f : Flags} {s : List Char} {r : Re} {i j : Nat} :
     omega
   | bol => intro h; simp only [Matches] at h; omega
   | eol => intro h; simp only [Matches] at h; omega
+  | wordb k => intro h; simp only [Matches] at h; omega
   | cat a b iha ihb =>
     rintro ⟨k, h1, h2⟩
     have := iha h1; have := ihb h2; omega
@@ -390,7 +391,32 @@ theorem mem_ends {f : Flags} {s : List Char} {r : Re} {i j : Nat} :
       · rintro ⟨_, h2, h3⟩; exact absurd ⟨h2, h3⟩ h
   | eol =>
     simp only [ends, Matches]
-    split <;> simp <;> omega
+    split
+    · rename_i h
+      constructor
+      · intro hj
+        have hj' : j = i := by simpa using hj
+        exact ⟨hj'.symm, h.1, h.2⟩
+      · rintro ⟨h1, _, _⟩
+        simp [h1]
+    · rename_i h
+      constructor
+      · intro hj; cases hj
+      · rintro ⟨_, h2, h3⟩; exact absurd ⟨h2, h3⟩ h
+  | wordb k =>
+    simp only [ends, Matches]
+    split
+    · rename_i h
+      constructor
+      · intro hj
+        have hj' : j = i := by simpa using hj
+        exact ⟨hj'.symm, h.1, h.2⟩
+      · rintro ⟨h1, _, _⟩
+        simp [h1]
+    · rename_i h
+      constructor
+      · intro hj; cases hj
+      · rintro ⟨_, h2, h3⟩; exact absurd ⟨h2, h3⟩ h
   | cat a b iha ihb =>
     simp only [ends, Matches, mem_stepAll, iha, ihb]
   | alt a b iha ihb =>
@@ -611,8 +637,8 @@ theorem clsHas_fold {neg : Bool} {items : List ClsItem} (h : items.all itemNoRan
     simp only [List.all_cons, Bool.and_eq_true] at h
     simp only [List.any_cons, List.map_cons, ih h.2, itemHas_fold h.1]
 
-theorem matches_icase_fold {nb : Bool} {s : List Char} {r : Re} (h : noRange r = true) {i j : Nat} :
-    Matches ⟨true, nb⟩ s r i j ↔ Matches ⟨false, nb⟩ (s.map fold) (foldRe r) i j := by
+theorem matches_icase_fold {nb ne : Bool} {s : List Char} {r : Re} (h : noRange r = true) {i j : Nat} :
+    Matches ⟨true, nb, ne⟩ s r i j ↔ Matches ⟨false, nb, ne⟩ (s.map fold) (foldRe r) i j := by
   induction r generalizing i j with
   | emp => simp [Matches, foldRe]
   | chr c =>
@@ -643,6 +669,7 @@ theorem matches_icase_fold {nb : Bool} {s : List Char} {r : Re} (h : noRange r =
         exact ⟨hj, d0, rfl, by rw [clsHas_fold h]; exact hc⟩
   | bol => simp [Matches, foldRe]
   | eol => simp [Matches, foldRe]
+  | wordb k => simp [noRange] at h
   | cat a b iha ihb =>
     simp only [noRange, Bool.and_eq_true] at h
     simp only [Matches, foldRe, iha h.1, ihb h.2]
@@ -711,9 +738,10 @@ theorem IterN.shift {R R' : Nat → Nat → Prop} {o : Nat} (h : ∀ p q, R p q 
       obtain ⟨k', rfl⟩ : ∃ k', k = o + k' := ⟨k - o, by omega⟩
       exact ⟨k', (h _ _).2 hk, ih.2 hr⟩
 
-theorem matches_drop {ic : Bool} {s : List Char} {o : Nat} (ho : 0 < o) (hol : o ≤ s.length) {r : Re}
-    {i j : Nat} : Matches ⟨ic, true⟩ (s.drop o) r i j ↔ Matches ⟨ic, false⟩ s r (o + i) (o + j) := by
-  have hmono : ∀ (a : Re) p q, Matches ⟨ic, false⟩ s a p q → p ≤ q := fun a p q h => (Matches.bounds h).1
+theorem matches_drop {ic ne : Bool} {s : List Char} {o : Nat} (ho : 0 < o) (hol : o ≤ s.length) {r : Re}
+    (hw : noWordB r = true)
+    {i j : Nat} : Matches ⟨ic, true, ne⟩ (s.drop o) r i j ↔ Matches ⟨ic, false, ne⟩ s r (o + i) (o + j) := by
+  have hmono : ∀ (a : Re) p q, Matches ⟨ic, false, ne⟩ s a p q → p ≤ q := fun a p q h => (Matches.bounds h).1
   induction r generalizing i j with
   | emp => simp only [Matches, List.length_drop]; omega
   | chr c =>
@@ -732,32 +760,43 @@ theorem matches_drop {ic : Bool} {s : List Char} {o : Nat} (ho : 0 < o) (hol : o
     constructor
     · rintro ⟨_, _, h⟩; cases h
     · rintro ⟨_, h, _⟩; omega
-  | eol => simp only [Matches, List.length_drop]; omega
+  | eol =>
+    simp only [Matches, List.length_drop]
+    constructor
+    · rintro ⟨h1, h2, h3⟩; exact ⟨by omega, by omega, h3⟩
+    · rintro ⟨h1, h2, h3⟩; exact ⟨by omega, by omega, h3⟩
+  | wordb k => simp [noWordB] at hw
   | cat a b iha ihb =>
+    simp only [noWordB, Bool.and_eq_true] at hw
     simp only [Matches]
     constructor
-    · rintro ⟨k, h1, h2⟩; exact ⟨o + k, iha.1 h1, ihb.1 h2⟩
+    · rintro ⟨k, h1, h2⟩; exact ⟨o + k, (iha hw.1).1 h1, (ihb hw.2).1 h2⟩
     · rintro ⟨k, h1, h2⟩
       have := hmono a _ _ h1
       obtain ⟨k', rfl⟩ : ∃ k', k = o + k' := ⟨k - o, by omega⟩
-      exact ⟨k', iha.2 h1, ihb.2 h2⟩
-  | alt a b iha ihb => simp only [Matches, iha, ihb]
+      exact ⟨k', (iha hw.1).2 h1, (ihb hw.2).2 h2⟩
+  | alt a b iha ihb =>
+    simp only [noWordB, Bool.and_eq_true] at hw
+    simp only [Matches, iha hw.1, ihb hw.2]
   | star a ih =>
+    simp only [noWordB] at hw
     simp only [Matches, List.length_drop]
-    rw [Iter.shift (fun p q => ih) (hmono a)]
+    rw [Iter.shift (fun p q => ih hw) (hmono a)]
     constructor
     · rintro ⟨h1, h2⟩; exact ⟨by omega, h2⟩
     · rintro ⟨h1, h2⟩; exact ⟨by omega, h2⟩
   | plus a ih =>
+    simp only [noWordB] at hw
     simp only [Matches]
     constructor
-    · rintro ⟨k, h1, h2⟩; exact ⟨o + k, ih.1 h1, (Iter.shift (fun p q => ih) (hmono a)).1 h2⟩
+    · rintro ⟨k, h1, h2⟩; exact ⟨o + k, (ih hw).1 h1, (Iter.shift (fun p q => ih hw) (hmono a)).1 h2⟩
     · rintro ⟨k, h1, h2⟩
       have := hmono a _ _ h1
       obtain ⟨k', rfl⟩ : ∃ k', k = o + k' := ⟨k - o, by omega⟩
-      exact ⟨k', ih.2 h1, (Iter.shift (fun p q => ih) (hmono a)).2 h2⟩
+      exact ⟨k', (ih hw).2 h1, (Iter.shift (fun p q => ih hw) (hmono a)).2 h2⟩
   | opt a ih =>
-    simp only [Matches, List.length_drop, ih]
+    simp only [noWordB] at hw
+    simp only [Matches, List.length_drop, ih hw]
     constructor
     · rintro (h | h)
       · exact Or.inl (by omega)
@@ -766,17 +805,20 @@ theorem matches_drop {ic : Bool} {s : List Char} {o : Nat} (ho : 0 < o) (hol : o
       · exact Or.inl (by omega)
       · exact Or.inr h
   | rep a m n ih =>
+    simp only [noWordB] at hw
     simp only [Matches, List.length_drop]
     constructor
     · rintro ⟨hi, k, h1, h2, h3⟩
-      exact ⟨by omega, k, h1, h2, (IterN.shift (fun p q => ih) (hmono a)).1 h3⟩
+      exact ⟨by omega, k, h1, h2, (IterN.shift (fun p q => ih hw) (hmono a)).1 h3⟩
     · rintro ⟨hi, k, h1, h2, h3⟩
-      exact ⟨by omega, k, h1, h2, (IterN.shift (fun p q => ih) (hmono a)).2 h3⟩
-  | grp a ih => simp only [Matches, ih]
+      exact ⟨by omega, k, h1, h2, (IterN.shift (fun p q => ih hw) (hmono a)).2 h3⟩
+  | grp a ih =>
+    simp only [noWordB] at hw
+    simp only [Matches, ih hw]
 
 /-- NOTBOL is irrelevant for a pattern without `^` -/
-theorem matches_noBol {ic nb nb' : Bool} {s : List Char} {r : Re} (h : noBol r = true) {i j : Nat} :
-    Matches ⟨ic, nb⟩ s r i j ↔ Matches ⟨ic, nb'⟩ s r i j := by
+theorem matches_noBol {ic nb nb' ne : Bool} {s : List Char} {r : Re} (h : noBol r = true) {i j : Nat} :
+    Matches ⟨ic, nb, ne⟩ s r i j ↔ Matches ⟨ic, nb', ne⟩ s r i j := by
   induction r generalizing i j with
   | emp => simp [Matches]
   | chr c => simp [Matches]
@@ -784,6 +826,7 @@ theorem matches_noBol {ic nb nb' : Bool} {s : List Char} {r : Re} (h : noBol r =
   | cls neg items => simp [Matches]
   | bol => simp [noBol] at h
   | eol => simp [Matches]
+  | wordb k => simp [Matches]
   | cat a b iha ihb =>
     simp only [noBol, Bool.and_eq_true] at h
     simp only [Matches, iha h.1, ihb h.2]
@@ -811,6 +854,46 @@ theorem matches_noBol {ic nb nb' : Bool} {s : List Char} {r : Re} (h : noBol r =
     · rintro ⟨hi, k, h1, h2, h3⟩; exact ⟨hi, k, h1, h2, (IterN.congr (fun p q => ih h)).2 h3⟩
   | grp a ih =>
     simp only [noBol] at h
+    simp only [Matches, ih h]
+
+/-- NOTEOL is irrelevant for a pattern without `$` -/
+theorem matches_noEol {ic nb ne ne' : Bool} {s : List Char} {r : Re} (h : noEol r = true) {i j : Nat} :
+    Matches ⟨ic, nb, ne⟩ s r i j ↔ Matches ⟨ic, nb, ne'⟩ s r i j := by
+  induction r generalizing i j with
+  | emp => simp [Matches]
+  | chr c => simp [Matches]
+  | any => simp [Matches]
+  | cls neg items => simp [Matches]
+  | bol => simp [Matches]
+  | eol => simp [noEol] at h
+  | wordb k => simp [Matches]
+  | cat a b iha ihb =>
+    simp only [noEol, Bool.and_eq_true] at h
+    simp only [Matches, iha h.1, ihb h.2]
+  | alt a b iha ihb =>
+    simp only [noEol, Bool.and_eq_true] at h
+    simp only [Matches, iha h.1, ihb h.2]
+  | star a ih =>
+    simp only [noEol] at h
+    simp only [Matches]
+    rw [Iter.congr (fun p q => ih h)]
+  | plus a ih =>
+    simp only [noEol] at h
+    simp only [Matches]
+    constructor
+    · rintro ⟨k, h1, h2⟩; exact ⟨k, (ih h).1 h1, (Iter.congr (fun p q => ih h)).1 h2⟩
+    · rintro ⟨k, h1, h2⟩; exact ⟨k, (ih h).2 h1, (Iter.congr (fun p q => ih h)).2 h2⟩
+  | opt a ih =>
+    simp only [noEol] at h
+    simp only [Matches, ih h]
+  | rep a m n ih =>
+    simp only [noEol] at h
+    simp only [Matches]
+    constructor
+    · rintro ⟨hi, k, h1, h2, h3⟩; exact ⟨hi, k, h1, h2, (IterN.congr (fun p q => ih h)).1 h3⟩
+    · rintro ⟨hi, k, h1, h2, h3⟩; exact ⟨hi, k, h1, h2, (IterN.congr (fun p q => ih h)).2 h3⟩
+  | grp a ih =>
+    simp only [noEol] at h
     simp only [Matches, ih h]
 
 end Hawk.Rex
